@@ -25,3 +25,6 @@ OBLIGATIONS = FT.fault_obligations('c08', 'C08') + [
          encodes=['TransferMeta.provide_transfer_size', 'DownloadSubmissionTask._submit', 'CopySubmissionTask._submit',
                   'UploadNonSeekableInputManager.requires_multipart_upload'], assumptions=['S1', 'S2']),
 ]
+
+from harness.corace import OB_CVS, OB_RACE, cancel_vs_submission, coordinator_race  # noqa: E402
+OBLIGATIONS += [dict(OB_CVS, id='C08.2'), dict(OB_RACE, id='C08.2r', cases=[(0, 2, True), (1, 2, True), (2, 2, False), (0, 2, False)])]
